@@ -517,4 +517,5 @@ static void st_gen(Ctx& ctx) {
     });
 }
 
+VK_FRESH_THREADS;
 VK_MAIN("C02")
